@@ -36,6 +36,13 @@
 #define LOG(msg)
 #endif
 
+#ifdef PSTLAB_ORATIO_VERIF
+namespace oratio_verif
+{
+  struct access;
+}
+#endif
+
 namespace smt
 {
   class sat_stack;
@@ -49,6 +56,9 @@ namespace smt
     friend class constr;
     friend class theory;
     friend class sat_value_listener;
+#ifdef PSTLAB_ORATIO_VERIF
+    friend struct ::oratio_verif::access;
+#endif
 
   public:
     SMT_EXPORT sat_core();
@@ -131,6 +141,13 @@ namespace smt
     std::unordered_map<size_t, std::set<theory *>> bounds;
     std::vector<sat_value_listener *> listeners; // all the listeners..
     std::unordered_map<size_t, std::set<sat_value_listener *>> listening;
+#ifdef PSTLAB_ORATIO_VERIF
+  public:
+    // verification hooks: observers of the clauses given to new_clause and of the clauses recorded (learnt)..
+    void (*verif_new_clause)(void *ctx, const std::vector<lit> &lits) = nullptr;
+    void (*verif_record)(void *ctx, const std::vector<lit> &lits) = nullptr;
+    void *verif_ctx = nullptr;
+#endif
   };
 
 } // namespace smt
